@@ -25,6 +25,34 @@ package resprot
 //@   ensures res == (r.Error == nil && len(r.Resource) == 0)
 //@ # exactly one of the three classifications holds for every Response value
 //@ func ParseResponse(data []byte) (r Response)
-//@   modifies all
+//@   modifies alloc
 //@   ensures classified: r.Error != nil || len(r.Resource) != 0 || ref(r.Result) != 0
 //@   ensures empty: imp(len(data) == 0, r.Error != nil && r.Error.Code == "system.internalError")
+//@
+//@ # ================================================================ SendRequest (C19)
+//@ props C19
+//@ # extn/extd: invocations of the timeout-extension callbacks and the duration passed last; lastsel: the select case taken last
+//@ ghostvar extn int
+//@ ghostvar extd int
+//@ ghostvar lastsel int
+//@ func callback.extendCB(self ref, d time.Duration)
+//@   modifies ghost.extn, ghost.extd
+//@   ensures extn == old(extn) + 1 && extd == d
+//@ func SendRequest(nc res.Conn, subject string, req interface{}, timeout time.Duration, onTimeoutExtend []func(time.Duration)) (r Response)
+//@   requires !isNil(nc) && forall(k, 0, len(onTimeoutExtend), onTimeoutExtend[k] != nil)
+//@   modifies all
+//@   callsite select#1 builtin.selectInbox
+//@   callback f extendCB
+//@   ghost select 1 after :: set lastsel = arg_index
+//@   # the waiting loop is entered only with the request published and the inbox subscribed
+//@   ghost call NewTimer#1 before :: assert published: isNil(err) && pubreq == old(pubreq) + 1 && subopen == old(subopen) + 1
+//@   # a timeout pre-response restarts the deadline with the announced duration before the callbacks are told
+//@   ghost loop 2 entry :: assert rearmed: tmdur == d && isNil(err__2) && d == 1000000 * ite(ms > 9223372036854, 9223372036854, ite(ms < -9223372036854, -9223372036854, ms))
+//@   # what is handed to the parser is not a pre-response
+//@   ghost call ParseResponse#1 before :: assert real: len(arg_data) == 0 || !((arg_data[0] >= 'a' && arg_data[0] <= 'z') || (arg_data[0] >= 'A' && arg_data[0] <= 'Z'))
+//@   ensures released: subopen == old(subopen)
+//@   ensures nowait: imp(tmn == old(tmn), r.Error != nil && r.Error.Code == "system.internalError")
+//@   ensures failed.early: imp(pubreq == old(pubreq), tmn == old(tmn))
+//@   ensures timeout: imp(tmn > old(tmn) && lastsel == 0, r.Error == res.ErrTimeout)
+//@   loop 1 invariant subopen == old(subopen) + 1 && tmn > old(tmn) && pubreq == old(pubreq) + 1 && timer != nil && ref(ch) != 0 && forall(k, 0, len(onTimeoutExtend), onTimeoutExtend[k] != nil)
+//@   loop 2 invariant -1 <= rangeindex && rangeindex < len(onTimeoutExtend) + 0 && subopen == old(subopen) + 1 && tmn > old(tmn) && pubreq == old(pubreq) + 1 && timer != nil && forall(k, 0, len(onTimeoutExtend), onTimeoutExtend[k] != nil)
